@@ -29,7 +29,23 @@ pub async fn run_ls(cmd_args: CmdArgs) -> Result<(), Box<dyn Error + Sync + Send
     };
 
     let (id, params) = connection.initialize_start()?;
-    let initialization_params: InitializeParams = serde_json::from_value(params).unwrap();
+    let initialization_params: InitializeParams = match serde_json::from_value(params) {
+        Ok(params) => params,
+        Err(err) => {
+            // every request gets a response, also an `initialize` that does not deserialize
+            let response = ::lsp_server::Response::new_err(
+                id,
+                ::lsp_server::ErrorCode::InvalidParams as i32,
+                format!("invalid initialize params: {err}"),
+            );
+            connection
+                .sender
+                .send(::lsp_server::Message::Response(response))?;
+            drop(connection);
+            threads.join()?;
+            return Err(Box::new(err));
+        }
+    };
     let server_capabilities = server_capabilities(&initialization_params.capabilities);
     let initialize_data = serde_json::json!({
         "capabilities": server_capabilities,
